@@ -1,7 +1,7 @@
 (** C04 — proofs, part 2: the selection walk in the "valid implies accepted" direction.
     If every site a spread-following validator reaches is fine (every site rule, variables usable, no cycle),
     the model's check_selection_set reports nothing — in particular it never runs out of fuel. *)
-From V Require Import Base.Util Gql.Ast C03.Model C03.Spec C03.Proofs C03.Proofs2 C03.Proofs3 C03.Proofs4 C04.Proofs.
+From V Require Import Base.Util Gql.Ast C03.Model C03.Spec C03.Proofs C03.Proofs2 C03.Proofs3 C03.Proofs4 C03.Proofs5 C04.Proofs.
 
 (** * Schema facts from [schema_closed] *)
 
@@ -56,7 +56,7 @@ Proof.
       exfalso. apply name_in_names in Hin. rewrite E in Hin. apply mem_In in Hin. rewrite Hin in Hnot. discriminate. }
     destruct (mem_str (iname (typedef_name t')) seen).
     + apply IH; assumption.
-    + right. apply IH; try assumption. cbn [mem_str existsb]. rewrite Hne, Hs. reflexivity.
+    + right. apply IH; try assumption. unfold mem_str in *. cbn [existsb]. rewrite Hne. exact Hs.
 Qed.
 
 Lemma mem_names_of_implements l n : mem n (names_of l) = true -> implements l n = true.
@@ -120,7 +120,7 @@ Proof.
     assert (E : str_eqb (iname n) (iname n') = true).
     { apply orb_true_iff in Happ as [E|Ho]; [exact E|]. apply overlap_inv in Ho as [x [H1 H2]].
       cbn [possible_types mem existsb] in H1, H2. rewrite orb_false_r in H1, H2.
-      apply str_eqb_eq in H1, H2. subst. apply str_eqb_refl. }
+      apply str_eqb_eq in H1, H2. apply str_eqb_eq. congruence. }
     rewrite E. reflexivity.
   - (* object / interface *)
     assert (E : implements impls (iname n') = true).
@@ -222,3 +222,507 @@ Proof.
       apply str_eqb_eq. congruence. }
     rewrite E. reflexivity.
 Qed.
+
+(** * Sites that are fine *)
+
+Definition site_fine (S : tsdoc) (D : opdoc) (vars : option vardefs) (x : site) : Prop :=
+  (forall r, site_ok true S D r x = true)
+  /\ Forall (use_strict vars) (site_var_uses false S x)
+  /\ site_syntax_ok x = true
+  /\ (forall n, x <> StCycle n).
+
+Lemma forallb_flat_map {A B} (p : B -> bool) (f : A -> list B) l :
+  forallb p (flat_map f l) = true -> forall x, In x l -> forallb p (f x) = true.
+Proof.
+  induction l as [|a l IH]; cbn [flat_map]; intros H x Hx; [contradiction|].
+  rewrite forallb_app in H. apply andb_true_iff in H as [Ha Hl]. destruct Hx as [<-|Hx]; auto.
+Qed.
+
+Lemma args_written_ne a : args_written_ok a = true -> forall x, a = Some x -> args_list x <> [].
+Proof. intros H x ->. cbn in H. destruct (args_list x); [discriminate | discriminate]. Qed.
+
+Section Fine.
+  Variable S : tsdoc.
+  Variable D : opdoc.
+  Variable vars : option vardefs.
+  Hypothesis Hwf : schema_wf S = true.
+  Hypothesis Hcl : schema_closed S = true.
+
+  Lemma closed_input : input_types_closed S = true.
+  Proof. apply (closed_parts S Hcl). Qed.
+
+  Lemma dirs_fine loc ds : site_fine S D vars (StDirs loc ds) -> check_directives S vars loc ds = [].
+  Proof.
+    intros [Hok [Hu [Hsyn _]]].
+    apply (check_directives_complete S vars Hwf closed_input).
+    - intros d Hd.
+      pose proof (Hok R_directives_defined) as H1. cbn [site_ok] in H1. rewrite forallb_forall in H1. specialize (H1 d Hd).
+      destruct (sp_directive S (iname (dir_name d))) as [dd|] eqn:Edd; [|discriminate].
+      exists dd. split; [exact Edd|].
+      pose proof (Hok R_directives_location) as H2. cbn [site_ok] in H2. rewrite forallb_forall in H2. specialize (H2 d Hd).
+      rewrite Edd in H2. split; [exact H2|].
+      split.
+      { intros a Ha. rewrite <- get_directive_sp in Edd. apply get_directive_In in Edd.
+        destruct (closed_parts S Hcl) as [_ [_ [Hdefs _]]]. specialize (Hdefs _ Edd). cbn beta iota in Hdefs.
+        rewrite forallb_forall in Hdefs. apply Hdefs, Ha. }
+      split.
+      { cbn [site_syntax_ok] in Hsyn. rewrite forallb_forall in Hsyn. apply args_written_ne, Hsyn, Hd. }
+      assert (Hsite : forall r, r = R_args_defined \/ r = R_required_args \/ r = R_literal_types ->
+                forallb (match r with R_args_defined => args_defined_ok | R_required_args => required_args_ok
+                                 | _ => literal_types_vis S end) [(provided (dir_args d), dir_argdefs dd)] = true).
+      { intros r Hr. pose proof (Hok r) as H3.
+        destruct Hr as [->|[->| ->]]; cbn [site_ok arg_sites] in H3;
+          pose proof (forallb_flat_map _ _ _ H3 d Hd) as H4; cbn beta in H4; rewrite Edd in H4; exact H4. }
+      pose proof (Hsite R_args_defined (or_introl eq_refl)) as A1.
+      pose proof (Hsite R_required_args (or_intror (or_introl eq_refl))) as A2.
+      pose proof (Hsite R_literal_types (or_intror (or_intror eq_refl))) as A3.
+      cbn [forallb] in A1, A2, A3. rewrite andb_true_r in A1, A2, A3.
+      split; [exact A1|]. split; [exact A2|]. split; [exact A3|].
+      cbn [site_var_uses] in Hu. pose proof (Forall_flat_map_inv _ _ _ Hu d Hd) as H5. cbn beta in H5. rewrite Edd in H5. exact H5.
+    - pose proof (Hok R_directives_unique) as H1. cbn [site_ok] in H1. exact H1.
+  Qed.
+
+  (** argument definitions of a field of a type of the schema resolve *)
+  Lemma field_args_resolve root fields tf :
+    In (TSType root) S -> direct_fields root = Some fields -> In tf fields ->
+    (forall a, In a (fd_argdefs tf) -> resolves S (iv_type a) = true)
+    /\ exists tft, get_type S (iname (ty_unwrapped (fd_type tf))) = Some tft.
+  Proof.
+    intros Hin Hd Htf. destruct (closed_parts S Hcl) as [_ [_ [Hdefs Hstr]]]. specialize (Hdefs _ Hin).
+    assert (Ht : (forall a, In a (fd_argdefs typename_field) -> resolves S (iv_type a) = true)
+                 /\ exists tft, get_type S (iname (ty_unwrapped (fd_type typename_field))) = Some tft).
+    { split; [intros a []|]. unfold resolves in Hstr. cbn [ty_unwrapped] in Hstr. rewrite <- get_type_sp in Hstr.
+      change (iname (ty_unwrapped (fd_type typename_field))) with (s "String").
+      change (iname (mkId (s "String") pos0)) with (s "String") in Hstr.
+      destruct (get_type S (s "String")) as [t|]; [eauto | discriminate]. }
+    assert (Hf : forall fs, field_list_closed S fs = true -> In tf fs ->
+                 (forall a, In a (fd_argdefs tf) -> resolves S (iv_type a) = true)
+                 /\ exists tft, get_type S (iname (ty_unwrapped (fd_type tf))) = Some tft).
+    { intros fs Hc Hi. unfold field_list_closed in Hc. rewrite forallb_forall in Hc. specialize (Hc _ Hi).
+      apply andb_true_iff in Hc as [H1 H2]. split.
+      - intros a Ha. rewrite forallb_forall in H2. apply H2, Ha.
+      - rewrite <- get_type_sp in H1. destruct (get_type S (iname (ty_unwrapped (fd_type tf)))) as [t|]; [eauto | discriminate]. }
+    destruct root; cbn in Hd; try discriminate; injection Hd as <-; cbn beta iota in Hdefs.
+    - apply in_app_or in Htf as [Htf|[<-|[]]]; [apply (Hf _ Hdefs Htf) | exact Ht].
+    - apply in_app_or in Htf as [Htf|[<-|[]]]; [apply (Hf _ Hdefs Htf) | exact Ht].
+    - destruct Htf as [<-|[]]. exact Ht.
+  Qed.
+End Fine.
+
+(** * Fuel *)
+
+Lemma sel_depth_lt p l x : In x l -> Datatypes.S (sel_depth x) <= selset_depth (SelSet p l).
+Proof.
+  induction l as [|a l IH]; intros Hin; [contradiction|].
+  change (selset_depth (SelSet p (a :: l))) with (Datatypes.S (Nat.max (sel_depth a) (Nat.pred (selset_depth (SelSet p l))))).
+  destruct Hin as [<-|Hin]; [lia|]. specialize (IH Hin). lia.
+Qed.
+
+Lemma selset_depth_pos ss : 1 <= selset_depth ss.
+Proof. destruct ss. cbn [selset_depth]. lia. Qed.
+
+Definition max_depth (D : opdoc) : nat := fold_right (fun d a => Nat.max (def_depth d) a) 0 (od_defs D).
+
+Lemma def_depth_le D d : In d (od_defs D) -> def_depth d <= max_depth D.
+Proof.
+  unfold max_depth. induction (od_defs D) as [|a l IH]; intros Hin; [contradiction|]. cbn [fold_right].
+  destruct Hin as [<-|Hin]; [lia|]. specialize (IH Hin). lia.
+Qed.
+
+Lemma frag_depth_le D f : In f (doc_fragdefs D) -> selset_depth (fr_sel f) <= max_depth D.
+Proof.
+  intros Hin. unfold doc_fragdefs in Hin. apply in_flat_map in Hin as [d [Hd Hf]].
+  destruct d as [o|f'|i]; cbn in Hf; try contradiction. destruct Hf as [<-|[]]. apply (def_depth_le D _ Hd).
+Qed.
+
+Lemma op_depth_le D o : In o (doc_ops D) -> selset_depth (op_sel o) <= max_depth D.
+Proof.
+  intros Hin. unfold doc_ops in Hin. apply in_flat_map in Hin as [d [Hd Hf]].
+  destruct d as [o'|f'|i]; cbn in Hf; try contradiction. destruct Hf as [<-|[]]. apply (def_depth_le D _ Hd).
+Qed.
+
+Lemma NoDup_snoc {A} (l : list A) x : NoDup l -> ~ In x l -> NoDup (l ++ [x]).
+Proof.
+  induction l as [|a l IH]; intros Hnd Hx; cbn [app]; [constructor; [intros []|constructor]|].
+  inversion Hnd as [|? ? Ha Hl]; subst. constructor.
+  - intros Hin. apply in_app_or in Hin as [Hin|[<-|[]]]; [contradiction|]. apply Hx. left. reflexivity.
+  - apply IH; [exact Hl|]. intros Hin. apply Hx. right. exact Hin.
+Qed.
+
+(** * The walk, completeness direction *)
+Section WalkComplete.
+  Variable S : tsdoc.
+  Variable D : opdoc.
+  Variable vars : option vardefs.
+  Hypothesis Hwf : schema_wf S = true.
+  Hypothesis Hcl : schema_closed S = true.
+  Hypothesis Hfrag_unique : nodup_str (map (fun f => iname (fr_name f)) (doc_fragdefs D)) = true.
+  Hypothesis Hfrag_targets :
+    forall f, In f (doc_fragdefs D) -> exists t, get_type S (iname (fr_cond f)) = Some t /\ is_composite t = true.
+
+  Notation fine := (site_fine S D vars).
+  Notation fm := (doc_frags D).
+  Notation N := (length (doc_fragdefs D)).
+  Notation Mx := (max_depth D).
+  Notation fnames := (map (fun f => iname (fr_name f)) (doc_fragdefs D)).
+
+  Lemma seen_bound seen : NoDup seen -> incl seen fnames -> length seen <= N.
+  Proof. intros H1 H2. rewrite <- (map_length (fun f => iname (fr_name f))). apply NoDup_incl_length; assumption. Qed.
+
+  Lemma walk_complete : forall f seen root ss fv,
+    In (TSType root) S -> is_composite root = true ->
+    NoDup seen -> incl seen fnames ->
+    (N - length seen) * Mx + selset_depth ss <= f ->
+    N < fv + length seen ->
+    Forall fine (flat_map (vsites_sel S (vis_enter fv S D seen) (Some root)) (selset_sels ss)) ->
+    check_selection_set f S fm vars seen root ss = [].
+  Proof.
+    induction f as [|f IH]; intros seen root ss fv Hroot Hcomp Hnd Hincl Hfuel Hfv Hfine.
+    { pose proof (selset_depth_pos ss). lia. }
+    cbn [check_selection_set]. unfold check_selection_set_body.
+    destruct (proj2 (direct_fields_composite root) Hcomp) as [fields Edf]. rewrite Edf.
+    apply flat_map_all_nil. intros sel Hsel.
+    pose proof (Forall_flat_map_inv _ _ _ Hfine sel Hsel) as Hs. clear Hfine.
+    destruct ss as [pss l]. cbn [selset_sels] in Hsel.
+    pose proof (sel_depth_lt pss l sel Hsel) as Hdepth.
+    pose proof (seen_bound seen Hnd Hincl) as Hsb.
+    destruct sel as [alias name args dirs sub|p name dirs|p tc dirs sub].
+    - (* field *)
+      cbn [vsites_sel] in Hs. inversion Hs as [|? ? Hfield Hs1]; subst. inversion Hs1 as [|? ? Hdirs Hkids]; subst.
+      clear Hs Hs1. destruct Hfield as [Hok [Hu [Hsyn _]]].
+      pose proof (Hok R_fields_exist) as H1. cbn [site_ok] in H1. rewrite Hcomp in H1. cbn [negb orb] in H1.
+      destruct (sp_field root (iname name)) as [tf|] eqn:Esp; [|discriminate].
+      cbn [check_selection]. unfold check_selection_field.
+      rewrite (direct_fields_sp root fields (iname name) Edf), Esp.
+      assert (Htf : In tf fields).
+      { rewrite <- (direct_fields_sp root fields (iname name) Edf) in Esp. apply (find_some _ _ Esp). }
+      destruct (field_args_resolve S Hcl root fields tf Hroot Edf Htf) as [Hres [tft Etft]].
+      change str_FIELD with (s "FIELD"). rewrite (dirs_fine S D vars Hwf Hcl _ _ Hdirs). cbn [app].
+      assert (Hargs : check_arguments S vars (ipos name) (iname name) str_field args (fd_argdefs tf) = []).
+      { pose proof (Hok R_args_defined) as A1. pose proof (Hok R_required_args) as A2. pose proof (Hok R_literal_types) as A3.
+        cbn [site_ok arg_sites] in A1, A2, A3. rewrite Esp in A1, A2, A3. cbn [forallb] in A1, A2, A3.
+        rewrite andb_true_r in A1, A2, A3. cbn [site_var_uses] in Hu. rewrite Esp in Hu.
+        apply (check_arguments_complete S vars Hwf (closed_input S Hcl)); auto.
+        cbn [site_syntax_ok] in Hsyn. apply args_written_ne, Hsyn. }
+      rewrite Hargs, Etft. cbn [app].
+      pose proof (Hok R_leaf_vs_composite) as H2. cbn [site_ok] in H2. rewrite Hcomp, Esp, <- get_type_sp, Etft in H2.
+      destruct sub as [ss'|].
+      + apply Bool.eqb_prop in H2.
+        destruct ss' as [q l']. cbn [sel_depth] in Hdepth.
+        rewrite <- get_type_sp, Etft in Hkids.
+        apply (IH seen tft (SelSet q l') fv (get_type_In _ _ _ Etft) H2 Hnd Hincl); [lia | exact Hfv | exact Hkids].
+      + apply Bool.eqb_prop in H2. apply direct_fields_none in H2. rewrite H2. reflexivity.
+    - (* spread *)
+      cbn [vsites_sel] in Hs. inversion Hs as [|? ? Hspread Hs1]; subst. inversion Hs1 as [|? ? Hdirs Henter]; subst.
+      clear Hs Hs1. destruct Hspread as [Hok _].
+      destruct fv as [|k]; [lia|]. cbn [vis_enter] in Henter.
+      destruct (mem (iname name) seen) eqn:Emem.
+      { inversion Henter as [|? ? [_ [_ [_ Hc]]] _]; subst. exfalso. apply (Hc (iname name)). reflexivity. }
+      pose proof (Hok R_spreads_defined) as H1. cbn [site_ok] in H1.
+      destruct (sp_frag D (iname name)) as [target|] eqn:Efr; [|discriminate].
+      inversion Henter as [|? ? Htdirs Hkids]; subst. clear Henter.
+      assert (Htin : In target (doc_fragdefs D)) by (apply (find_some _ _ Efr)).
+      assert (Htname : iname (fr_name target) = iname name).
+      { pose proof (find_some _ _ Efr) as [_ Hn]. apply str_eqb_eq in Hn. exact Hn. }
+      destruct (Hfrag_targets target Htin) as [cond [Econd Hccomp]].
+      cbn [check_selection]. unfold check_fragment_spread.
+      change str_FRAGMENT_SPREAD with (s "FRAGMENT_SPREAD"). rewrite (dirs_fine S D vars Hwf Hcl _ _ Hdirs). cbn [app].
+      rewrite mem_str_mem, Emem. rewrite (frag_get_sp D Hfrag_unique), Efr.
+      change str_FRAGMENT_DEFINITION with (s "FRAGMENT_DEFINITION"). rewrite (dirs_fine S D vars Hwf Hcl _ _ Htdirs). cbn [app].
+      rewrite Econd. unfold check_fragment_spread_core.
+      pose proof (Hok R_spread_possible) as H2. cbn [site_ok] in H2. rewrite Efr, <- get_type_sp, Econd in H2.
+      rewrite (spread_match_complete S p root cond Hcl Hroot (get_type_In _ _ _ Econd) Hcomp Hccomp H2). cbn [fst snd app].
+      rewrite <- get_type_sp, Econd in Hkids.
+      assert (Hnew : ~ In (iname name) seen).
+      { intros Hin. apply mem_In in Hin. congruence. }
+      assert (Hnd' : NoDup (seen ++ [iname name])).
+      { apply NoDup_snoc; assumption. }
+      assert (Hincl' : incl (seen ++ [iname name]) fnames).
+      { intros x Hx. apply in_app_or in Hx as [Hx|[<-|[]]]; [apply Hincl, Hx|].
+        rewrite <- Htname. apply (in_map (fun f0 => iname (fr_name f0))), Htin. }
+      pose proof (seen_bound _ Hnd' Hincl') as Hsb'. rewrite app_length in Hsb'. cbn [length] in Hsb'.
+      pose proof (frag_depth_le D target Htin) as Hfd.
+      pose proof (selset_depth_pos (SelSet pss l)) as Hpos.
+      apply (IH (seen ++ [iname name]) cond (fr_sel target) k (get_type_In _ _ _ Econd) Hccomp Hnd' Hincl').
+      + rewrite app_length. cbn [length].
+        assert (E : N - length seen = Datatypes.S (N - (length seen + 1))) by lia.
+        rewrite E in Hfuel. cbn [Nat.mul] in Hfuel. lia.
+      + rewrite app_length. cbn [length]. lia.
+      + exact Hkids.
+    - (* inline fragment *)
+      destruct sub as [q l']. cbn [sel_depth] in Hdepth.
+      cbn [check_selection]. unfold check_inline_fragment.
+      destruct tc as [c|]; cbn [vsites_sel] in Hs.
+      + inversion Hs as [|? ? Hinl Hs1]; subst. inversion Hs1 as [|? ? Hdirs Hkids]; subst. clear Hs Hs1.
+        destruct Hinl as [Hok _].
+        change str_INLINE_FRAGMENT with (s "INLINE_FRAGMENT"). rewrite (dirs_fine S D vars Hwf Hcl _ _ Hdirs). cbn [app].
+        pose proof (Hok R_fragment_targets) as H1. cbn [site_ok] in H1. rewrite <- get_type_sp in H1.
+        destruct (get_type S (iname c)) as [cond|] eqn:Econd; [|discriminate].
+        unfold check_fragment_spread_core.
+        pose proof (Hok R_spread_possible) as H2. cbn [site_ok] in H2. rewrite <- get_type_sp, Econd in H2.
+        rewrite (spread_match_complete S p root cond Hcl Hroot (get_type_In _ _ _ Econd) Hcomp H1 H2). cbn [fst snd app].
+        rewrite <- get_type_sp, Econd in Hkids.
+        apply (IH seen cond (SelSet q l') fv (get_type_In _ _ _ Econd) H1 Hnd Hincl); [lia | exact Hfv | exact Hkids].
+      + inversion Hs as [|? ? Hdirs Hkids]; subst. clear Hs.
+        change str_INLINE_FRAGMENT with (s "INLINE_FRAGMENT"). rewrite (dirs_fine S D vars Hwf Hcl _ _ Hdirs). cbn [app].
+        apply (IH seen root (SelSet q l') fv Hroot Hcomp Hnd Hincl); [lia | exact Hfv | exact Hkids].
+  Qed.
+End WalkComplete.
+
+(** * From the rules on the visible sites to an empty error list *)
+
+Lemma all_rules_complete r : In r all_rules.
+Proof. destruct r; cbn; tauto. Qed.
+
+Lemma find_op_none_conv prev name :
+  mem name (names_of_ops (ops_of prev)) = false ->
+  find (fun other => match other with
+                     | DOp o => match op_name o with Some n => str_eqb (iname n) name | None => false end
+                     | _ => false
+                     end) prev = None.
+Proof.
+  induction prev as [|d prev IH]; intros H; [reflexivity|]. cbn [find].
+  destruct d as [o|f|i]; try (apply IH, H).
+  change (ops_of (DOp o :: prev)) with (o :: ops_of prev) in H.
+  change (names_of_ops (o :: ops_of prev))
+    with ((match op_name o with Some n => [iname n] | None => [] end) ++ names_of_ops (ops_of prev)) in H.
+  rewrite mem_app in H. apply orb_false_iff in H as [H1 H2].
+  destruct (op_name o) as [n|] eqn:En.
+  - rewrite mem_cons in H1. apply orb_false_iff in H1 as [H1 _]. rewrite str_eqb_sym, H1. apply IH, H2.
+  - apply IH, H2.
+Qed.
+
+Lemma find_frag_none_conv prev name :
+  mem name (names_of_frags (frags_of prev)) = false ->
+  find (fun other => match other with DFrag o => str_eqb (iname (fr_name o)) name | _ => false end) prev = None.
+Proof.
+  induction prev as [|d prev IH]; intros H; [reflexivity|]. cbn [find].
+  destruct d as [o|f|i]; try (apply IH, H).
+  change (names_of_frags (frags_of (DFrag f :: prev))) with (iname (fr_name f) :: names_of_frags (frags_of prev)) in H.
+  rewrite mem_cons in H. apply orb_false_iff in H as [H1 H2]. rewrite str_eqb_sym, H1. apply IH, H2.
+Qed.
+
+Lemma nodup_str_app_l a b : nodup_str (a ++ b) = true -> nodup_str a = true.
+Proof.
+  induction a as [|x a IH]; cbn [app nodup_str]; [reflexivity|]. intros H. apply andb_true_iff in H as [H1 H2].
+  rewrite (IH H2), andb_true_r. rewrite mem_app in H1. destruct (mem x a); [discriminate H1 | reflexivity].
+Qed.
+
+Lemma check_variables_from_complete S : forall vs seen,
+  nodup_str (map vd_name vs) = true ->
+  (forall v, In v vs -> mem (vd_name v) seen = false) ->
+  (forall v, In v vs ->
+     check_directives S None str_VARIABLE_DEFINITION (vd_dirs v) = []
+     /\ match sp_type S (iname (ty_unwrapped (vd_type v))) with Some t => is_input_type t | None => false end = true) ->
+  check_variables_from S seen vs = [].
+Proof.
+  induction vs as [|v vs IH]; intros seen Hnd Hseen Hall; [reflexivity|].
+  cbn [check_variables_from]. cbn zeta.
+  rewrite mem_str_mem, (Hseen v (or_introl eq_refl)). cbn [app].
+  destruct (Hall v (or_introl eq_refl)) as [Hd Ht]. rewrite Hd. cbn [app].
+  rewrite get_type_sp. destruct (sp_type S (iname (ty_unwrapped (vd_type v)))) as [t|]; [|discriminate].
+  assert (Hi : inout_is_input t = true) by (destruct t; cbn in *; congruence). rewrite Hi. cbn [app].
+  cbn [map nodup_str] in Hnd. apply andb_true_iff in Hnd as [Hv Hnd].
+  apply IH; [exact Hnd | | intros w Hw; apply Hall; right; exact Hw].
+  intros w Hw. rewrite mem_app. rewrite (Hseen w (or_intror Hw)). cbn [orb mem existsb]. rewrite orb_false_r.
+  destruct (str_eqb_spec (vd_name w) (vd_name v)) as [E|E]; [|reflexivity].
+  exfalso. apply negb_true_iff in Hv. assert (Hm : mem (vd_name v) (map vd_name vs) = true).
+  { apply mem_In. rewrite <- E. apply in_map, Hw. } congruence.
+Qed.
+
+Lemma find_var_eq' o n : find_var o n = get_variable_definition (op_vars o) n.
+Proof. unfold find_var, get_variable_definition, op_vardefs. destruct (op_vars o); reflexivity. Qed.
+
+Section DocComplete.
+  Variable S : tsdoc.
+  Variable D : opdoc.
+  Hypothesis Hwf : schema_wf S = true.
+  Hypothesis Hcl : schema_closed S = true.
+  Hypothesis Hfine : doc_fine_vis S D = true.
+  (** the subscription rule is outside the theorems (C03 and C04 alike): the implementation's own count is assumed *)
+  Hypothesis Hsub : forall o, In o (doc_ops D) -> op_type o = Subscription ->
+    count_fields (doc_fuel D) (doc_frags D) [] (op_sel o) <= 1.
+
+  Lemma rules_vis r : rule_ok_vis S D r = true.
+  Proof.
+    unfold doc_fine_vis in Hfine. apply andb_true_iff in Hfine as [H _]. rewrite forallb_forall in H.
+    apply H, all_rules_complete.
+  Qed.
+
+  Lemma op_fine o : In o (doc_ops D) ->
+    var_usage_strict_on S o (vis_op_sites S D o) = true
+    /\ forallb site_syntax_ok (vis_op_sites S D o ++ op_const_sites o) = true
+    /\ exists t, sp_root S (op_type o) = Some t /\ is_object t = true.
+  Proof.
+    intros Hin. unfold doc_fine_vis in Hfine. apply andb_true_iff in Hfine as [_ H]. rewrite forallb_forall in H.
+    specialize (H o Hin). rewrite !andb_true_iff in H. destruct H as [[H1 H2] H3]. split; [exact H1|]. split; [exact H2|].
+    destruct (sp_root S (op_type o)) as [t|]; [eauto | discriminate].
+  Qed.
+
+  Lemma vis_in o : In o (doc_ops D) -> In (o, vis_op_sites S D o) (vis_doc_sites S D).
+  Proof. intros H. unfold vis_doc_sites. apply in_map_iff. exists o. auto. Qed.
+
+  Lemma frag_unique' : nodup_str (map (fun f => iname (fr_name f)) (doc_fragdefs D)) = true.
+  Proof. exact (rules_vis R_unique_fragments). Qed.
+
+  Lemma frag_targets' : forall f, In f (doc_fragdefs D) ->
+    exists t, get_type S (iname (fr_cond f)) = Some t /\ is_composite t = true.
+  Proof.
+    intros f Hin. pose proof (rules_vis R_fragment_targets) as H. unfold rule_ok_vis in H. cbn [rule_ok_vis_on] in H.
+    apply andb_true_iff in H as [H _]. rewrite forallb_forall in H. specialize (H f Hin).
+    rewrite <- get_type_sp in H. destruct (get_type S (iname (fr_cond f))) as [t|]; [eauto | discriminate].
+  Qed.
+
+  Lemma site_rules_hold o x r : In o (doc_ops D) -> In x (vis_op_sites S D o ++ op_const_sites o) ->
+    site_ok true S D r x = true.
+  Proof.
+    intros Ho Hx. pose proof (rules_vis r) as H. unfold rule_ok_vis in H.
+    destruct r; try reflexivity; cbn [rule_ok_vis_on] in H;
+      try (rewrite forallb_forall in H; specialize (H _ (vis_in o Ho)); cbn [fst snd] in H;
+           rewrite forallb_forall in H; apply H, Hx).
+    (* fragment targets: the rule is read on the operation's sites; constant sites are directive lists *)
+    apply in_app_or in Hx as [Hx|Hx].
+    - apply andb_true_iff in H as [_ H]. rewrite forallb_forall in H. specialize (H _ (vis_in o Ho)). cbn [fst snd] in H.
+      rewrite forallb_forall in H. apply H, Hx.
+    - unfold op_const_sites in Hx. apply in_map_iff in Hx as [v [<- _]]. reflexivity.
+  Qed.
+
+  Lemma vis_site_fine o x : In o (doc_ops D) -> In x (vis_op_sites S D o) -> site_fine S D (op_vars o) x.
+  Proof.
+    intros Ho Hx. destruct (op_fine o Ho) as [Hstrict [Hsyn _]].
+    split; [|split; [|split]].
+    - intros r. apply (site_rules_hold o x r Ho). apply in_or_app. left. exact Hx.
+    - pose proof (rules_vis R_vars_defined) as Hd. unfold rule_ok_vis in Hd. cbn [rule_ok_vis_on] in Hd.
+      rewrite forallb_forall in Hd. specialize (Hd _ (vis_in o Ho)). cbn [fst snd] in Hd.
+      unfold vars_defined_on in Hd. apply andb_true_iff in Hd as [Hd _].
+      rewrite forallb_forall in Hd. specialize (Hd x Hx).
+      unfold var_usage_strict_on in Hstrict. rewrite forallb_forall in Hstrict. specialize (Hstrict x Hx).
+      apply Forall_forall. intros u Hu.
+      rewrite forallb_forall in Hd, Hstrict. specialize (Hd u Hu). specialize (Hstrict u Hu).
+      rewrite find_var_eq' in Hd, Hstrict.
+      destruct (get_variable_definition (op_vars o) (u_name u)) as [vd|] eqn:Ev; [|discriminate].
+      exists vd. split; [exact Ev|]. intros t Et. rewrite Et in Hstrict. exact Hstrict.
+    - rewrite forallb_forall in Hsyn. apply Hsyn, in_or_app. left. exact Hx.
+    - intros n ->. pose proof (rules_vis R_no_cycles) as Hc. unfold rule_ok_vis in Hc. cbn [rule_ok_vis_on] in Hc.
+      rewrite forallb_forall in Hc. specialize (Hc _ (vis_in o Ho)). cbn [fst snd] in Hc.
+      rewrite forallb_forall in Hc. specialize (Hc _ Hx). discriminate.
+  Qed.
+
+  Lemma const_site_fine o x : In o (doc_ops D) -> In x (op_const_sites o) -> site_fine S D None x.
+  Proof.
+    intros Ho Hx. destruct (op_fine o Ho) as [_ [Hsyn _]].
+    split; [|split; [|split]].
+    - intros r. apply (site_rules_hold o x r Ho). apply in_or_app. right. exact Hx.
+    - pose proof (rules_vis R_vars_defined) as Hd. unfold rule_ok_vis in Hd. cbn [rule_ok_vis_on] in Hd.
+      rewrite forallb_forall in Hd. specialize (Hd _ (vis_in o Ho)). cbn [fst snd] in Hd.
+      unfold vars_defined_on in Hd. apply andb_true_iff in Hd as [_ Hd].
+      rewrite forallb_forall in Hd. specialize (Hd x Hx). destruct (site_var_uses false S x); [constructor | discriminate].
+    - rewrite forallb_forall in Hsyn. apply Hsyn, in_or_app. right. exact Hx.
+    - intros n ->. unfold op_const_sites in Hx. apply in_map_iff in Hx as [v [E _]]. discriminate.
+  Qed.
+
+  Lemma optype_eqb_eq a b : optype_eqb a b = true -> a = b.
+  Proof. destruct a, b; cbn; intros H; try discriminate; reflexivity. Qed.
+
+  Lemma check_operation_complete o : In o (doc_ops D) -> check_operation (doc_fuel D) S (doc_frags D) o = [].
+  Proof.
+    intros Ho. destruct (op_fine o Ho) as [_ [_ [root [Hroot Hobj]]]].
+    destruct (wf_parts S Hwf) as [Hone Hpos].
+    unfold check_operation. unfold root_types. rewrite (root_types_from_one S Hone).
+    pose proof Hroot as Hroot0. unfold sp_root in Hroot.
+    assert (Hmain : forall rootname, get_type S rootname = Some root ->
+      check_directives S (op_vars o) (op_location (op_type o)) (op_dirs o)
+      ++ match op_vars o with Some vs => check_variables_definition S vs | None => [] end
+      ++ (if optype_eqb (op_type o) Subscription && Nat.ltb 1 (count_fields (doc_fuel D) (doc_frags D) [] (op_sel o))
+          then [err0 SubscriptionMustHaveExactlyOneRootField (op_pos o)] else [])
+      ++ check_selection_set (doc_fuel D) S (doc_frags D) (op_vars o) [] root (op_sel o) = []).
+    { intros rootname Hg.
+      assert (H1 : check_directives S (op_vars o) (op_location (op_type o)) (op_dirs o) = []).
+      { rewrite op_location_eq. apply (dirs_fine S D (op_vars o) Hwf Hcl).
+        apply (vis_site_fine o _ Ho). unfold vis_op_sites. left. reflexivity. }
+      assert (H2 : match op_vars o with Some vs => check_variables_definition S vs | None => [] end = []).
+      { destruct (op_vars o) as [vs|] eqn:Ev; [|reflexivity]. unfold check_variables_definition.
+        pose proof (rules_vis R_unique_vars) as U. pose proof (rules_vis R_vars_input_types) as T.
+        unfold rule_ok_vis in U, T. cbn [rule_ok_vis_on rule_ok] in U, T.
+        rewrite forallb_forall in U, T. specialize (U o Ho). specialize (T o Ho).
+        unfold op_vardefs in U, T. rewrite Ev in U, T.
+        apply check_variables_from_complete; [exact U | intros; reflexivity |].
+        intros v Hv. split; [|rewrite forallb_forall in T; apply T, Hv].
+        apply (dirs_fine S D None Hwf Hcl). apply (const_site_fine o _ Ho).
+        unfold op_const_sites, op_vardefs. rewrite Ev. apply in_map_iff. exists v. auto. }
+      assert (H3 : optype_eqb (op_type o) Subscription && Nat.ltb 1 (count_fields (doc_fuel D) (doc_frags D) [] (op_sel o)) = false).
+      { destruct (optype_eqb (op_type o) Subscription) eqn:E; [|reflexivity]. cbn [andb].
+        apply Nat.ltb_ge. apply (Hsub o Ho). apply optype_eqb_eq, E. }
+      assert (H4 : check_selection_set (doc_fuel D) S (doc_frags D) (op_vars o) [] root (op_sel o) = []).
+      { apply (walk_complete S D (op_vars o) Hwf Hcl frag_unique' frag_targets' _ [] root (op_sel o)
+                 (Datatypes.S (length (doc_fragdefs D)))).
+        - apply (get_type_In _ _ _ Hg).
+        - destruct root; try discriminate Hobj; reflexivity.
+        - constructor.
+        - intros x [].
+        - pose proof (op_depth_le D o Ho) as Hd. unfold doc_fuel. change (doc_frags D) with (doc_fragdefs D).
+          fold (max_depth D). cbn [length]. rewrite Nat.sub_0_r. cbn [Nat.mul]. lia.
+        - cbn [length]. lia.
+        - apply Forall_forall. intros x Hx. apply (vis_site_fine o x Ho). unfold vis_op_sites. right.
+          rewrite Hroot0. exact Hx. }
+      rewrite H1, H2, H3, H4. reflexivity. }
+    destruct (sp_schema_def S) as [sd|] eqn:Esd.
+    - rewrite r_pos_fold. cbn [r_pos]. rewrite (Hpos sd (sp_schema_def_In _ _ Esd)). cbn [negb].
+      rewrite root_of_fold.
+      destruct (find (fun p => optype_eqb (fst p) (op_type o)) (rev (sd_ops sd))) as [p|]; [|discriminate].
+      rewrite <- get_type_sp in Hroot. rewrite Hroot. apply (Hmain _ Hroot).
+    - cbn [r_pos pos0 pbuiltin negb].
+      assert (Hn : root_of (mkRoots pos0 None None None) (op_type o) = None) by (destruct (op_type o); reflexivity).
+      rewrite Hn. rewrite <- get_type_sp, <- default_root_name_eq in Hroot. rewrite Hroot. apply (Hmain _ Hroot).
+  Qed.
+
+  Lemma check_definition_complete l1 d l2 :
+    od_defs D = l1 ++ d :: l2 ->
+    check_definition (doc_fuel D) S (doc_frags D) (length (filter is_op (od_defs D))) l1 d = [].
+  Proof.
+    intros E. destruct d as [o|f|i]; cbn [check_definition]; [| |reflexivity].
+    - assert (Ho : In o (doc_ops D)).
+      { unfold doc_ops. apply in_flat_map. exists (DOp o). split; [rewrite E; apply in_or_app; right; left; reflexivity | left; reflexivity]. }
+      rewrite (check_operation_complete o Ho), app_nil_r.
+      destruct (op_name o) as [name|] eqn:En.
+      + pose proof (rules_vis R_unique_op_names) as U. unfold rule_ok_vis in U. cbn [rule_ok_vis_on rule_ok] in U.
+        unfold op_names, doc_ops in U. change (nodup_str (names_of_ops (ops_of (od_defs D))) = true) in U.
+        rewrite E, ops_of_app, names_of_ops_app in U.
+        change (ops_of (DOp o :: l2)) with (o :: ops_of l2) in U.
+        change (names_of_ops (o :: ops_of l2))
+          with ((match op_name o with Some n => [iname n] | None => [] end) ++ names_of_ops (ops_of l2)) in U.
+        rewrite En in U. rewrite app_assoc in U. apply nodup_str_app_l in U.
+        rewrite nodup_str_snoc in U. apply andb_true_iff in U as [_ U]. apply negb_true_iff in U.
+        rewrite (find_op_none_conv l1 (iname name) U). reflexivity.
+      + pose proof (rules_vis R_lone_anonymous) as U. unfold rule_ok_vis in U. cbn [rule_ok_vis_on rule_ok] in U.
+        rewrite length_filter_is_op. fold (doc_ops D).
+        assert (Hex : existsb (fun o0 => match op_name o0 with None => true | Some _ => false end) (doc_ops D) = true).
+        { apply existsb_exists. exists o. rewrite En. auto. }
+        rewrite Hex in U. cbn [negb orb] in U. unfold doc_ops in U. unfold doc_ops. unfold ops_of. rewrite U. reflexivity.
+    - assert (Hf : In f (doc_fragdefs D)).
+      { unfold doc_fragdefs. apply in_flat_map. exists (DFrag f). split; [rewrite E; apply in_or_app; right; left; reflexivity | left; reflexivity]. }
+      pose proof frag_unique' as U. unfold doc_fragdefs in U.
+      change (nodup_str (names_of_frags (frags_of (od_defs D))) = true) in U.
+      rewrite E, frags_of_app in U. unfold names_of_frags in U. rewrite map_app in U.
+      change (frags_of (DFrag f :: l2)) with (f :: frags_of l2) in U. cbn [map] in U.
+      change (map (fun f0 => iname (fr_name f0)) (frags_of l1) ++ iname (fr_name f) :: map (fun f0 => iname (fr_name f0)) (frags_of l2))
+        with (map (fun f0 => iname (fr_name f0)) (frags_of l1) ++ [iname (fr_name f)] ++ map (fun f0 => iname (fr_name f0)) (frags_of l2)) in U.
+      rewrite app_assoc in U. apply nodup_str_app_l in U.
+      rewrite nodup_str_snoc in U. apply andb_true_iff in U as [_ U]. apply negb_true_iff in U.
+      rewrite (find_frag_none_conv l1 (iname (fr_name f)) U). cbn [app].
+      unfold check_fragment_definition. destruct (frag_targets' f Hf) as [t [Eg Hc]]. rewrite Eg.
+      destruct t; try discriminate Hc; reflexivity.
+  Qed.
+
+  Lemma check_definitions_complete : forall defs prev,
+    od_defs D = prev ++ defs ->
+    check_definitions (doc_fuel D) S (doc_frags D) (length (filter is_op (od_defs D))) prev defs = [].
+  Proof.
+    induction defs as [|d defs IH]; intros prev E; [reflexivity|]. cbn [check_definitions].
+    rewrite (check_definition_complete prev d defs E). cbn [app].
+    apply IH. rewrite <- app_assoc. exact E.
+  Qed.
+
+  Theorem complete_vis : check_operation_document S D = [].
+  Proof. unfold check_operation_document, check_operation_document_fuel. apply check_definitions_complete. reflexivity. Qed.
+End DocComplete.
